@@ -26,6 +26,7 @@ import Mhd.Proofs.Hash.Md5
 import Mhd.Proofs.Hash.Sha512
 import Mhd.Proofs.Hash.Sha1
 import Mhd.Proofs.Hash.Casts
+import Mhd.Proofs.Hash.LenField
 
 namespace Mhd.C16
 open Mhd.Hash
@@ -216,6 +217,99 @@ example : ("MHD_SHA512_256_update", "(ctx->count & (SHA512_256_BLOCK_SIZE - 1))"
     length of 2^32 + 5 is changed by it (to 5, which is less than the free space of the buffer) -/
 example : (⟨"MHD_SHA512_256_update", "length", 34, true, true, false, 64, 32, .other "length" 64⟩ : NarrowCast).harmless = false
     ∧ (CExpr.other "length" 64).eval (fun _ => 2 ^ 32 + 5) % 2 ^ 32 = 5 := by decide
+
+/-! ### The length field written by finish
+
+  `…_chunks` compare the digest with the specification, and the specifications pad with the
+  full-width bit length (`Spec.X.lenField n` = the 64-bit, for SHA-512/256 the 128-bit, encoding of
+  `8·n`).  The statement about the field itself is a direct corollary of the invariant behind
+  `…_chunks` (`Mhd.Hash.lengthField_eq`: byte counter = bytes fed, `putLen` = `lenField`):
+  whatever was fed since `init`, in whatever pieces, `finish` stores `8·total` — all 64 (128) bits
+  of it, not only the low word.  `lengthField A c` is by definition the byte string `finish` writes
+  at offset `B - L` of the last block (`finish_uses_lengthField`).  -/
+/-- SHA-256: the 8 bytes stored at offset 56 of the last block are the big-endian `8·total`: modulo 2^64 in
+    general (`count << 3`), exactly for every total below 2^61 bytes (the standard's own limit) -/
+theorem finish_length_encoding_sha256 (c : Ctx (R8 UInt32)) (hc : c.buffer.length = 64)
+    (chunks : List (Nat × List UInt8)) :
+    ∃ c', feed Sha256.alg (init Sha256.alg c) chunks = .ok c' ∧
+      beVal (lengthField Sha256.alg c') = (8 * (message chunks).length) % 2 ^ 64 ∧
+      ((message chunks).length < 2 ^ 61 → beVal (lengthField Sha256.alg c') = 8 * (message chunks).length) := by
+  obtain ⟨c', hf, h⟩ := lengthField_eq Sha256.refines c hc chunks (fun _ _ => trivial)
+  refine ⟨c', hf, ?_, ?_⟩
+  · rw [h, sha256_lenField_val]; rfl
+  · intro hlt; rw [h, sha256_lenField_val]
+    exact Nat.mod_eq_of_lt (by simp only [message] at hlt ⊢; omega)
+
+/-- SHA-1 (src/microhttpd/sha1.c) -/
+theorem finish_length_encoding_sha1 (c : Ctx (R5 UInt32)) (hc : c.buffer.length = 64)
+    (chunks : List (Nat × List UInt8)) :
+    ∃ c', feed Sha1.alg (init Sha1.alg c) chunks = .ok c' ∧
+      beVal (lengthField Sha1.alg c') = (8 * (message chunks).length) % 2 ^ 64 ∧
+      ((message chunks).length < 2 ^ 61 → beVal (lengthField Sha1.alg c') = 8 * (message chunks).length) := by
+  obtain ⟨c', hf, h⟩ := lengthField_eq Sha1.refines c hc chunks (fun _ _ => trivial)
+  refine ⟨c', hf, ?_, ?_⟩
+  · rw [h, sha1_lenField_val]; rfl
+  · intro hlt; rw [h, sha1_lenField_val]
+    exact Nat.mod_eq_of_lt (by simp only [message] at hlt ⊢; omega)
+
+/-- SHA-1 (src/microhttpd_ws/sha1.c) -/
+theorem finish_length_encoding_ws_sha1 (c : Ctx (R5 UInt32)) (hc : c.buffer.length = 64)
+    (chunks : List (Nat × List UInt8)) :
+    ∃ c', feed Sha1.wsAlg (init Sha1.wsAlg c) chunks = .ok c' ∧
+      beVal (lengthField Sha1.wsAlg c') = (8 * (message chunks).length) % 2 ^ 64 ∧
+      ((message chunks).length < 2 ^ 61 → beVal (lengthField Sha1.wsAlg c') = 8 * (message chunks).length) := by
+  obtain ⟨c', hf, h⟩ := lengthField_eq Sha1.wsRefines c hc chunks (fun _ _ => trivial)
+  refine ⟨c', hf, ?_, ?_⟩
+  · rw [h, sha1_lenField_val]; rfl
+  · intro hlt; rw [h, sha1_lenField_val]
+    exact Nat.mod_eq_of_lt (by simp only [message] at hlt ⊢; omega)
+
+/-- MD5: little-endian, and modulo 2^64 by definition (RFC 1321 §3.2) -/
+theorem finish_length_encoding_md5 (c : Ctx (R4 UInt32)) (hc : c.buffer.length = 64)
+    (chunks : List (Nat × List UInt8)) :
+    ∃ c', feed Md5.alg (init Md5.alg c) chunks = .ok c' ∧
+      leVal (lengthField Md5.alg c') = (8 * (message chunks).length) % 2 ^ 64 ∧
+      ((message chunks).length < 2 ^ 61 → leVal (lengthField Md5.alg c') = 8 * (message chunks).length) := by
+  obtain ⟨c', hf, h⟩ := lengthField_eq Md5.refines c hc chunks (fun _ _ => trivial)
+  refine ⟨c', hf, ?_, ?_⟩
+  · rw [h, md5_lenField_val]; rfl
+  · intro hlt; rw [h, md5_lenField_val]
+    exact Nat.mod_eq_of_lt (by simp only [message] at hlt ⊢; omega)
+
+/-- SHA-512/256: 16 bytes at offset 112 (`count_bits_hi` then `count << 3`), exact below 2^125 bytes -/
+theorem finish_length_encoding_sha512_256 (c : Ctx (R8 UInt64)) (hc : c.buffer.length = 128)
+    (chunks : List (Nat × List UInt8)) (hl : sizeT chunks) :
+    ∃ c', feed Sha512.alg (init Sha512.alg c) chunks = .ok c' ∧
+      beVal (lengthField Sha512.alg c') = (8 * (message chunks).length) % 2 ^ 128 ∧
+      ((message chunks).length < 2 ^ 125 → beVal (lengthField Sha512.alg c') = 8 * (message chunks).length) := by
+  obtain ⟨c', hf, h⟩ := lengthField_eq Sha512.refines c hc chunks hl
+  refine ⟨c', hf, ?_, ?_⟩
+  · rw [h, sha512_lenField_val]; rfl
+  · intro hlt; rw [h, sha512_lenField_val]
+    exact Nat.mod_eq_of_lt (by simp only [message] at hlt ⊢; omega)
+
+/-- at 2^29 bytes the bit length leaves the low 32-bit word (the field is 00 00 00 01 00 00 00 00),
+    at 2^32 bytes it is 2^35 — for every way of feeding that many bytes; nothing is evaluated on
+    a list of that length -/
+example (c : Ctx (R5 UInt32)) (hc : c.buffer.length = 64) (chunks : List (Nat × List UInt8))
+    (h : (message chunks).length = 2 ^ 29) :
+    ∃ c', feed Sha1.alg (init Sha1.alg c) chunks = .ok c' ∧ beVal (lengthField Sha1.alg c') = 2 ^ 32 := by
+  obtain ⟨c', hf, _, hx⟩ := finish_length_encoding_sha1 c hc chunks
+  exact ⟨c', hf, by rw [hx (by rw [h]; decide), h]⟩
+
+example (c : Ctx (R8 UInt32)) (hc : c.buffer.length = 64) (chunks : List (Nat × List UInt8))
+    (h : (message chunks).length = 2 ^ 32) :
+    ∃ c', feed Sha256.alg (init Sha256.alg c) chunks = .ok c' ∧ beVal (lengthField Sha256.alg c') = 2 ^ 35 := by
+  obtain ⟨c', hf, _, hx⟩ := finish_length_encoding_sha256 c hc chunks
+  exact ⟨c', hf, by rw [hx (by rw [h]; decide), h]⟩
+
+/-- such chunk lists exist (one call of 2^29 bytes; 2^32 bytes as 2^12 calls of 2^20) … -/
+example : (message [(0, List.replicate (2 ^ 29) 0)]).length = 2 ^ 29 := by
+  simp only [message, List.map_cons, List.map_nil, List.flatten_cons, List.flatten_nil, List.append_nil,
+    List.length_replicate]
+/-- … and the bytes of the field at 2^29: the upper word is 1 -/
+example : Spec.Sha1.spec.lenField (2 ^ 29) = [0, 0, 0, 1, 0, 0, 0, 0] ∧
+    beVal [0, 0, 0, 1, 0, 0, 0, 0] = 8 * 2 ^ 29 := by decide
 
 /-! ### Tests (not proofs): the specifications on published vectors -/
 
